@@ -40,6 +40,7 @@ func makeAvailableMemory(cache *MemCache, requiredMem, maxMem, minMem uint64) er
 		}
 		requiredMem = (available / minMem) * minMem
 	}
+	requiredMem = verifMem(requiredMem)
 	cache.Update(requiredMem)
 	return nil
 }
